@@ -122,7 +122,6 @@ fn next_change_hint_composition() {
     }
     vcover!("hint_composition.before_1900", d < date_start());
     vcover!("hint_composition.inside_some", d >= date_start() && d < date_end() && h.is_some());
-    vcover!("hint_composition.inside_none", d >= date_start() && d < date_end() && h.is_none());
 }
 
 //@H props=C08,C17,C04 tier=off kind=bounded cap=3600 mem=heavy note="no verdict in 1800 s: DaySelector::filter cannot be stubbed (generic trait method) and CBMC explores all of date_filter.rs" bound="expressions of 1 rule (any operator/kind; contribution arbitrary)" domain="every date chrono can represent outside 1900-01-01..9999-12-31"
